@@ -100,7 +100,7 @@ class C12(Check):
                 services = {s: {int(k): v for k, v in sv.items()} for s, sv in srv.services.items()}
             except Exception:  # noqa: BLE001
                 services = {1: {0x10: [1]}}
-            ops = gen_history(rng, services, rng.choice([1, 5, 20, 40, 60]))
+            ops = gen_history(rng, services, rng.choice([1, 5, 20, 40, 60] if tier == "quick" else [20, 60, 150]))
             # repeated identical requests
             if ops and rng.random() < 0.5:
                 for _ in range(rng.choice([1, 3])):
